@@ -30,7 +30,7 @@ func (Engine) Plan(prop, tier string) kernel.Plan {
 	p.Exhaustive = 1 + len(info.chunks)
 	p.ExhaustiveNote = fmt.Sprintf("all %d histories of up to %d actions applicable after StartWatchingLedgerChannel(P) with one sub-channel and versions <= %d "+
 		"(start S; publish P with S locked or not; publish S; registered event for P or S with version 0..min(newest+1,%d); progressed / concluded event for P or S; "+
-		"StopWatching(S); StopWatching(P), refused while S is watched), each under %d schedules (at quiescence; sequential with keyed gaps up to 1.5 ms and all yield sites on; "+
+		"StopWatching(S); one re-start of S with its next version after it was de-registered; StopWatching(P), refused while S is watched), each under %d schedules (at quiescence; sequential with keyed gaps up to 1.5 ms and all yield sites on; "+
 		"concurrent within microseconds with all yield sites on), in %d chunks",
 		info.histories, depth, enumMaxVer, enumMaxVer, nSchedules, p.Exhaustive)
 	p.Runs = p.Exhaustive + random
@@ -59,6 +59,7 @@ func (Engine) Execute(t *testing.T, sc *kernel.Scenario, trace bool) *kernel.Res
 
 type gmodel struct {
 	pw      int
+	re      [nChans]int
 	sw      [nChans]int
 	v       [nChans]int
 	locked  [nChans]bool
@@ -89,6 +90,14 @@ func genRandom(r *kernel.Rand) *kernel.Scenario {
 	}
 	if w["reg"] == 0 && r.Bool(0.8) {
 		w["reg"] = 12
+	}
+	// a third of the runs concentrate on the life cycle of sub-channels: watch,
+	// lock, de-register, watch again, publish, de-register again, with outdated
+	// registered events in between
+	lifecycle := r.Bool(0.35)
+	if lifecycle {
+		w["stopS"], w["reg"], w["pubP"], w["stopP"] = 9, 12, 8, 1
+		w["startS"] = 9
 	}
 	m := &gmodel{pw: 1}
 	v0 := 0
@@ -127,13 +136,23 @@ func genRandom(r *kernel.Rand) *kernel.Scenario {
 			if m.sw[j] == 2 && m.arch[j] {
 				eligible = append(eligible, j)
 			}
+			if m.sw[j] == 2 && m.re[j] < 2 {
+				// re-watch a de-registered sub-channel (still locked in P or not)
+				add(w["startS"]*(2+b2i(m.locked[j]))/3, kernel.St("startS", "i", j))
+			}
 		}
 		mask := 0
 		unlockedEligible := 0
 		for _, j := range eligible {
 			keep := 0.55
+			if lifecycle {
+				keep = 0.8
+			}
 			if m.locked[j] {
 				keep = 0.85
+				if lifecycle {
+					keep = 0.95
+				}
 			} else {
 				unlockedEligible++
 			}
@@ -187,8 +206,13 @@ func genRandom(r *kernel.Rand) *kernel.Scenario {
 		switch st.Op {
 		case "startS":
 			j := int(st.Int("i"))
+			if m.sw[j] == 2 {
+				m.re[j]++
+				m.v[j]++
+			} else {
+				m.v[j] = int(st.Int("v"))
+			}
 			m.sw[j] = 1
-			m.v[j] = int(st.Int("v"))
 		case "pub":
 			k := int(st.Int("ch"))
 			m.v[k]++
@@ -232,7 +256,7 @@ func b2i(b bool) int {
 
 func (Engine) Describe(prop string) kernel.Describe {
 	return kernel.Describe{
-		Rule: "the real local.Watcher alone on a scripted adjudicator, one synctest bubble per history. Histories: StartWatching for a ledger channel P and 1-3 sub-channels; " +
+		Rule: "the real local.Watcher alone on a scripted adjudicator, one synctest bubble per history. Histories: StartWatching for a ledger channel P and 1-3 sub-channels, re-watching of de-registered sub-channels with their next version; " +
 			"Publish of the next version on P (with a drawn, ordered set of locked sub-channels among those watched or de-registered while locked) and on sub-channels; " +
 			"registered / progressed / concluded events with versions 0..newest+1 pushed into the watcher's subscriptions; StopWatching(S_i); StopWatching(P) (refused while sub-channels are watched, repeated). " +
 			"Every action is issued after an explicit gap plus a keyed jitter, optionally on its own goroutine; the three yield sites in watcher.go park under a buggify mask; Register takes a keyed latency, fails by script, " +
@@ -246,10 +270,16 @@ func (Engine) Describe(prop string) kernel.Describe {
 		Assumptions: []string{
 			"single-ledger channels only (sim assets); signatures are dummy bytes (the watcher never verifies them)",
 			"a sub-channel is locked in a P transaction only while it is watched or after it was de-registered while locked; a sub-channel locked without ever being watched is outside the statement (see known finding C04 unwatched-locked-subchannel)",
-			"a channel is watched at most once (no re-watching after StopWatching); nothing is published on a channel once a stop request for it was made (documented contract of StatesPub)",
+			"a sub-channel may be watched again after its StopWatching succeeded (same channel ID; StartWatchingSubChannel gets the sub-channel's next version; up to two re-starts per sub-channel in random histories, one in the enumerated part), " +
+				"also while it is still locked in P; the ledger channel P itself is watched once; nothing is published on a channel once a stop request for it was made, until it is watched again (documented contract of StatesPub)",
+			"watching sessions: every StartWatching opens a new session with its own chain subscription, StatesPub and client event stream. While S_i is watched (session running) its sub-state must be its newest published transaction (the state handed to the re-start included, from the return of StartWatchingSubChannel on); " +
+				"while it is de-registered, exactly the transaction archived at the latest StopWatching (archive bookkeeping per channel and session; an archive exists only if S_i was locked in P's newest transaction at that StopWatching, and only then may P lock it while de-registered). " +
+				"'at most once and in strictly increasing version order' is checked per event stream, i.e. per watching session",
 			"'the adjudicator reports' is the moment the watcher takes the event from its subscription; 'published' is the moment Publish returned; a publish overlapping the handling of an event may or may not be used (may-zone)",
 			"may-zones: an event whose handler has not returned when a (successful) StopWatching of its channel is invoked needs no refutation/relay; a sub-state whose channel is being de-registered while the tree is collected may be the live or the archived one; " +
-				"StopWatching(P) overlapping a StopWatching(S_i) may be refused or not; a Register that returned while a later event was already reported may or may not count as 'already registered something newer'",
+				"while a StartWatchingSubChannel (re-start) of S_i is in flight during the collection of the tree, the archived or the new/live state of S_i is acceptable; " +
+				"StopWatching(P) overlapping a StopWatching(S_i) may be refused or not; a Register that returned while a later event was already reported may or may not count as 'already registered something newer'; " +
+				"a registration made in an earlier watching session of a re-watched sub-channel (or while it was de-registered) may or may not count as 'already registered something newer' for events of the new session: it excuses a missing refutation and does not make a refutation spurious",
 			"events pushed into the subscription of an already de-registered channel are dropped by the stub (its subscription is closed)",
 		},
 		Real: []string{"watcher/local.Watcher (registry, states pub-sub, adjudicator pub-sub, all handler goroutines)", "channel.State/Allocation/Params/Transaction/AdjudicatorEvent types",
